@@ -262,3 +262,240 @@ Proof.
   destruct (run_population_history _ _ _ _ _ _ _ E) as (p & s & l' & p' & s' & A & B & D & _).
   exists p, s, l', p', s'. auto.
 Qed.
+
+(* ====================================================================================================== *)
+(* agent-c03read: ReadPopulation (population_io.go:20-88) - the counters it derives from the genomes it    *)
+(* reads, the invariant for the population it builds, and histories across a write / read round trip.     *)
+(* Proofs: proofs/ReadPopRegistry.v.  Reader model: model/Plain.v (token lines; C15).                     *)
+(*                                                                                                        *)
+(* Vocabulary added:                                                                                      *)
+(*   read_population reg ls        Plain.v: the genomes read in order (rgenome: gene endpoints are        *)
+(*                                 optional), nextNodeId, nextInnovNum; for ANY list of token lines       *)
+(*   Plain.resolve r               the Genome.genome of a read genome, when no gene endpoint is nil       *)
+(*   read_population_state o reg ls   ReadPopulation as a whole: organisms for the genomes read, empty    *)
+(*                                 innovation record, the two counters, then Population.speciate          *)
+(*   write_population reg gs       Population.Write: the genomes one after another (Plain.v)              *)
+(*   node_ok reg n                 C15: ids fit an int32, neuron type < 128, registered activation        *)
+(* Both counters hold the LAST value handed out (getNextInnovationNumber / getNextNodeId add one and      *)
+(* return the new value), so "dominates" is <=.                                                           *)
+(* ====================================================================================================== *)
+From Coq Require Import Sorting.Sorted.
+From NeatModel Require Import Plain PlainSpec PlainPopSpec ReadPopRegistry.
+Open Scope list_scope.
+Open Scope Z_scope.
+
+(* For EVERY list of token lines and every activation registry on which the reader succeeds:
+   - nextInnovNum is the largest (innovation number of the LAST gene + 1) over the genomes read (or 0);
+   - nextNodeId is the largest id of a LAST node over the genomes read, or that plus one (which of the
+     two depends on the order of the genomes in the file);
+   - every genome read has a gene and a node; nextInnovNum exceeds the number of its last gene and
+     nextNodeId is at least the id of its last node; when its genes (nodes) are in ascending order - as in
+     every well-formed genome - the counters dominate every number (id) it holds.
+   The reader looks at the last gene and the last node only: for a genome whose genes are not in ascending
+   order the counter can be smaller than a number it holds (C03_read_counters_unsorted below). *)
+Theorem C03_read_counters_dominate :
+  forall reg ls gs nn ni,
+    read_population reg ls = Ok (gs, nn, ni) ->
+    ni = fold_left (fun m g => Z.max m (rg_innov (last (rg_genes g) dummy_rgene) + 1)) gs 0 /\
+    fold_left (fun m g => Z.max m (n_id (last (rg_nodes g) dummy_node))) gs 0 <= nn
+      <= fold_left (fun m g => Z.max m (n_id (last (rg_nodes g) dummy_node))) gs 0 + 1 /\
+    forall g, In g gs ->
+      (rg_genes g <> [] /\ rg_innov (last (rg_genes g) dummy_rgene) < ni /\
+       (StronglySorted Z.lt (map rg_innov (rg_genes g)) -> forall x, In x (rg_genes g) -> rg_innov x < ni)) /\
+      (rg_nodes g <> [] /\ n_id (last (rg_nodes g) dummy_node) <= nn /\
+       (StronglySorted Z.lt (map n_id (rg_nodes g)) -> forall n, In n (rg_nodes g) -> n_id n <= nn)).
+Proof. exact read_counters_spec. Qed.
+Print Assumptions C03_read_counters_dominate.
+
+(* the order hypothesis cannot be dropped: a file the reader accepts (one genome, genes numbered 3, 2, 1 in
+   this order) after which nextInnovNum is 2, and one (nodes 1, 2, 3, 6, 5, 4) after which nextNodeId is 5 *)
+Theorem C03_read_counters_unsorted :
+  (exists g nn, read_population ex_act_reg ex_unsorted_genes = Ok ([g], nn, 2) /\ map rg_innov (rg_genes g) = [3; 2; 1]) /\
+  (exists g ni, read_population ex_act_reg ex_unsorted_nodes = Ok ([g], 5, ni) /\ map n_id (rg_nodes g) = [1; 2; 3; 6; 5; 4]).
+Proof. exact unsorted_counters_fall_short. Qed.
+Print Assumptions C03_read_counters_unsorted.
+
+(* ReadPopulation on ANY stream: when it succeeds (every gene endpoint naming a node of its genome) the
+   environment is the empty record with the two counters read and the heap holds only genomes read; if the
+   genomes read are well-formed, have the input / bias / output nodes, the trait shape and the first
+   innovation number of the context C, and are mutually consistent (same innovation number => same link,
+   same node id => same role), the population satisfies the invariant GInv with the registries read off
+   the genomes - so every theorem above (C03_step, C03_history, C03_fresh_larger, ...) applies to it. *)
+Theorem C03_read_population_invariant :
+  forall C o reg ls s p s',
+    read_population_state o reg ls s = Ok (p, s') ->
+    exists rgs gs nn ni,
+      read_population reg ls = Ok (rgs, nn, ni) /\ map_opt Plain.resolve rgs = Some gs /\
+      s_env s' = {| innovs := []; next_innov := ni; next_node := nn |} /\
+      (forall x, In x (p_heap p) -> In (Population.o_genome x) gs) /\
+      ((forall g, In g gs ->
+          wf g /\ incl (c_io C) (io_nodes g) /\ incl (io_nodes g) (c_io C) /\ tshape g = c_tshape C /\
+          exists x, hd_error (genes g) = Some x /\ g_innov x = c_n0 C) ->
+       (forall g1 g2 x1 x2, In g1 gs -> In g2 gs -> In x1 (genes g1) -> In x2 (genes g2) -> g_innov x1 = g_innov x2 ->
+          g_in x1 = g_in x2 /\ g_out x1 = g_out x2 /\ g_rec x1 = g_rec x2) ->
+       (forall g1 g2 n1 n2, In g1 gs -> In g2 gs -> In n1 (nodes g1) -> In n2 (nodes g2) -> n_id n1 = n_id n2 ->
+          n_type n1 = n_type n2) ->
+       GInv C p (s_env s')
+            (flat_map (fun g => map (fun x => (g_innov x, (g_in x, g_out x, g_rec x))) (genes g)) gs)
+            (flat_map (fun g => map (fun n => (n_id n, n_type n)) (nodes g)) gs)).
+Proof. exact read_population_invariant. Qed.
+Print Assumptions C03_read_population_invariant.
+
+(* the case the hypotheses above are made for: a population that satisfies the invariant, written with
+   Population.Write (the organisms of Population.Organisms in order; eight parameters per trait and nodes
+   the plain format can carry) and read back, satisfies the invariant again under sub-registries of the
+   ones before that still cover every organism written; the innovation record is empty *)
+Theorem C03_write_read_invariant :
+  forall C o reg p0 e0 R NR orgs ls s p s',
+    GInv C p0 e0 R NR -> reg_ok reg ->
+    hgets (p_heap p0) (Population.p_orgs p0) = Ok orgs ->
+    Forall (fun tp => snd tp = NUM_TRAIT_PARAMS) (c_tshape C) ->
+    (forall x n, In x orgs -> In n (nodes (Population.o_genome x)) -> node_ok reg n) ->
+    write_population reg (map Population.o_genome orgs) = Ok ls ->
+    read_population_state o reg ls s = Ok (p, s') ->
+    exists R2 NR2,
+      GInv C p (s_env s') R2 NR2 /\ incl R2 R /\ incl NR2 NR /\ innovs (s_env s') = [] /\
+      (forall x, In x orgs -> g_agrees R2 (Population.o_genome x) /\ n_agrees NR2 (Population.o_genome x)) /\
+      (forall y, In y (p_heap p) -> exists x, In x orgs /\ Population.o_genome y = Population.o_genome x).
+Proof. exact write_read_invariant. Qed.
+Print Assumptions C03_write_read_invariant.
+
+(* evolution continued after a write / read round trip: a gene of an organism that was written and a gene
+   of any organism of any generation after the read (any number of epochs, any fitness values, executor
+   states and random tapes) with the same innovation number join the same nodes with the same recurrence
+   flag; a node id keeps its role *)
+Theorem C03_history_across_read :
+  forall C o reg p0 e0 R NR orgs ls s p2 s2 l p3 s3,
+    GInv C p0 e0 R NR -> reg_ok reg ->
+    hgets (p_heap p0) (Population.p_orgs p0) = Ok orgs ->
+    Forall (fun tp => snd tp = NUM_TRAIT_PARAMS) (c_tshape C) ->
+    (forall x n, In x orgs -> In n (nodes (Population.o_genome x)) -> node_ok reg n) ->
+    write_population reg (map Population.o_genome orgs) = Ok ls ->
+    read_population_state o reg ls s = Ok (p2, s2) ->
+    history o p2 s2 l p3 s3 ->
+    forall a pb b, In a orgs -> In pb (p2 :: l) -> In b (p_heap pb) ->
+      (forall xa xb, In xa (genes (Population.o_genome a)) -> In xb (genes (Population.o_genome b)) ->
+                     g_innov xa = g_innov xb ->
+                     g_in xa = g_in xb /\ g_out xa = g_out xb /\ g_rec xa = g_rec xb) /\
+      (forall na nb, In na (nodes (Population.o_genome a)) -> In nb (nodes (Population.o_genome b)) ->
+                     n_id na = n_id nb -> n_type na = n_type nb).
+Proof. exact history_across_read_spelled. Qed.
+Print Assumptions C03_history_across_read.
+
+(* ... and against the WHOLE history before the write: an organism of any generation before the write and
+   an organism of any generation after the read agree on every innovation number that is not larger than
+   the counter the reader derived, and on every node id not larger than the node counter.  The bound is
+   needed: the file does not carry the counters, so a number that only organisms extinct at the time of
+   writing held lies above the counter read and is issued again (observed on the real code, harness family
+   read-population, histogram number_of_extinct_organism_reissued_after_read). *)
+Theorem C03_whole_history_across_read :
+  forall C o reg pS sS R NR l0 p0 s0 orgs ls s p2 s2 l p3 s3,
+    GInv C pS (s_env sS) R NR -> history o pS sS l0 p0 s0 -> reg_ok reg ->
+    hgets (p_heap p0) (Population.p_orgs p0) = Ok orgs ->
+    Forall (fun tp => snd tp = NUM_TRAIT_PARAMS) (c_tshape C) ->
+    (forall x n, In x orgs -> In n (nodes (Population.o_genome x)) -> node_ok reg n) ->
+    write_population reg (map Population.o_genome orgs) = Ok ls ->
+    read_population_state o reg ls s = Ok (p2, s2) ->
+    history o p2 s2 l p3 s3 ->
+    forall pa pb a b, In pa (pS :: l0) -> In pb (p2 :: l) -> In a (p_heap pa) -> In b (p_heap pb) ->
+      (forall xa xb, In xa (genes (Population.o_genome a)) -> In xb (genes (Population.o_genome b)) ->
+                     g_innov xa = g_innov xb -> g_innov xa <= next_innov (s_env s2) ->
+                     g_in xa = g_in xb /\ g_out xa = g_out xb /\ g_rec xa = g_rec xb) /\
+      (forall na nb, In na (nodes (Population.o_genome a)) -> In nb (nodes (Population.o_genome b)) ->
+                     n_id na = n_id nb -> n_id na <= next_node (s_env s2) -> n_type na = n_type nb).
+Proof. exact whole_history_across_read_spelled. Qed.
+Print Assumptions C03_whole_history_across_read.
+
+(* ---------- non-vacuity: spawn + three epochs, write, read, three more epochs ---------- *)
+(* the start genome of C03_example with the eight trait parameters the plain format carries *)
+Definition ex_start8 : genome :=
+  GN 1 [T 1 [0x1.999999999999ap-04%float; zero; zero; zero; zero; zero; zero; zero];
+        T 2 [0x1.999999999999ap-03%float; zero; zero; zero; zero; zero; zero; zero]]
+       [N 1 1 17 None; N 2 1 17 None; N 3 3 17 None; N 4 2 4 None]
+       [G 1 4 false zero (Some 1) 1 zero true; G 2 4 false zero (Some 2) 2 zero true; G 3 4 false zero (Some 1) 3 zero true] [].
+
+Definition ex_s8 : st := {| s_tape := go_tape 42 8000; s_env := {| innovs := []; next_innov := 0; next_node := 0 |} |}.
+Definition ex_pops8 : res (list population * st) := run_population ex_opts ex_start8 ex_s8 ex_fit 3.
+
+(* the last of the four populations is written and read back (ReadPopulation does not draw; the epochs
+   after it use a fresh tape), then three more epochs *)
+Definition ex_after_of (r : res (list population * st)) : res (population * list population * st * st) :=
+  match r with
+  | Ok (l, s) => run_write_read ex_opts ex_act_reg (last l empty_population)
+                                {| s_tape := go_tape 43 6000; s_env := s_env s |} ex_fit 3
+  | _ => BadOracle
+  end.
+Definition ex_after : res (population * list population * st * st) := ex_after_of ex_pops8.
+
+(* before the write the counters are 10 / 8; the reader derives 11 (largest number held 10, plus one) and 8;
+   three epochs later they are 24 / 12; the registry read off all eight populations (four before the write,
+   four after the read) is functional *)
+Example C03_example_across_read :
+  match ex_pops8, ex_after with
+  | Ok (l, s), Ok (p2, l2, s2, s3) =>
+    (map (fun p => List.length (p_heap p)) (p2 :: l2), s_env s, s_env s2, s_env s3,
+     functionalb key_eqb (all_genes (l ++ p2 :: l2)), functionalb Z.eqb (all_nodes (l ++ p2 :: l2)),
+     max_key (all_genes l), max_key (all_genes (p2 :: l2)), max_key (all_nodes (p2 :: l2)))
+    = ([8%nat; 8%nat; 8%nat; 8%nat],
+       {| innovs := []; next_innov := 10; next_node := 8 |}, {| innovs := []; next_innov := 11; next_node := 8 |},
+       {| innovs := []; next_innov := 24; next_node := 12 |}, true, true, 10, 24, 12)
+  | _, _ => False
+  end.
+Proof. vm_compute. reflexivity. Qed.
+
+Example C03_example_wf_start8 : wf ex_start8.
+Proof.
+  constructor.
+  - discriminate.
+  - unfold genes_sorted, InsertSpec.asc. cbn. repeat constructor.
+  - unfold links_nodup. cbn. repeat constructor; cbn; intuition discriminate.
+  - unfold nodes_sorted, InsertSpec.asc. cbn. repeat constructor.
+  - intros x [<-|[<-|[<-|[]]]]; cbn; eexists; eexists; repeat split.
+  - split.
+    + intros x t [<-|[<-|[<-|[]]]] [= <-]; (split; [discriminate|]); cbn; eauto.
+    + intros n t [<-|[<-|[<-|[<-|[]]]]]; discriminate.
+  - split; [discriminate|]. exists 1. split; [reflexivity|reflexivity].
+  - exists (N 4 2 4 None). split; [cbn; auto|reflexivity].
+  - reflexivity.
+Qed.
+
+(* the hypotheses of C03_write_read_invariant / C03_history_across_read / C03_whole_history_across_read are
+   satisfiable together: the run above is such a situation *)
+Definition ex_hyp_check (r : res (list population * st)) : bool :=
+  match r with
+  | Ok (l, s) =>
+    match hgets (p_heap (last l empty_population)) (Population.p_orgs (last l empty_population)) with
+    | Ok orgs => forallb (fun x => forallb (node_okb ex_act_reg) (nodes (Population.o_genome x))) orgs
+    | _ => false
+    end && is_ok (ex_after_of r)
+  | _ => false
+  end.
+
+Example C03_example_across_read_hypotheses :
+  exists C pS sS R NR l0 p0 s0 orgs ls s p2 s2 l p3 s3,
+    GInv C pS (s_env sS) R NR /\ history ex_opts pS sS l0 p0 s0 /\ List.length l0 = 3%nat /\ reg_ok ex_act_reg /\
+    hgets (p_heap p0) (Population.p_orgs p0) = Ok orgs /\
+    Forall (fun tp => snd tp = NUM_TRAIT_PARAMS) (c_tshape C) /\
+    (forall x n, In x orgs -> In n (nodes (Population.o_genome x)) -> node_ok ex_act_reg n) /\
+    write_population ex_act_reg (map Population.o_genome orgs) = Ok ls /\
+    read_population_state ex_opts ex_act_reg ls s = Ok (p2, s2) /\
+    history ex_opts p2 s2 l p3 s3 /\ List.length l = 3%nat.
+Proof.
+  assert (Hb : ex_hyp_check (run_population ex_opts ex_start8 ex_s8 ex_fit 3) = true) by (vm_compute; reflexivity).
+  destruct (run_population ex_opts ex_start8 ex_s8 ex_fit 3) as [[l s]| | | | |] eqn:E; try discriminate Hb.
+  destruct (run_population_history _ _ _ _ _ _ _ E) as (pS & sS & l0 & p0 & s0 & A & Hh & Hl & El).
+  destruct (GInv_spawn ex_opts ex_start8 ex_s8 pS sS C03_example_wf_start8 eq_refl A) as [G _].
+  assert (Ep : last l empty_population = p0).
+  { rewrite El, (history_last _ _ _ _ _ _ Hh). symmetry. apply last_cons_default. }
+  unfold ex_hyp_check, ex_after_of in Hb. cbv beta iota in Hb. rewrite Ep in Hb.
+  apply andb_true_iff in Hb. destruct Hb as [Hn Hr].
+  destruct (hgets (p_heap p0) (Population.p_orgs p0)) as [orgs| | | | |] eqn:Eo; try discriminate Hn.
+  destruct (run_write_read ex_opts ex_act_reg p0 _ ex_fit 3) as [[[[p2 l2] s2] s3]| | | | |] eqn:Er; try discriminate Hr.
+  destruct (run_write_read_history _ _ _ _ _ _ _ _ _ _ Er) as (orgs' & ls & p3 & s3' & B1 & B2 & B3 & B4 & B5).
+  rewrite Eo in B1. injection B1 as <-.
+  exists (ctx_of ex_start8), pS, sS, (reg_of ex_start8), (nreg_of ex_start8), l0, p0, s0, orgs, ls,
+         {| s_tape := go_tape 43 6000; s_env := s_env s |}, p2, s2, l2, p3, s3'.
+  split; [exact G|]. split; [exact Hh|]. split; [exact Hl|].
+  split; [apply reg_okb_sound; vm_compute; reflexivity|]. split; [exact Eo|].
+  split; [cbn; repeat constructor|]. split; [apply orgs_node_ok; exact Hn|]. auto.
+Qed.
